@@ -5,8 +5,12 @@ Driver for C16.  One request line = one run of a transaction block under a fault
 
   run mode=<fast|locked|serializable> timeout=<ticks> attempts=<n> uprio=<b.lk,...|-> faults=<i,j,...|->
       data=<b.k.v.dl,...|-> flocks=<b.lk,...|-> body=<cmd;cmd;...|-> probe=<b.k.v>
+      step=<ticks per lock-step> hlocks=<b.lk,...|-> rel=<i.b.lk,...|->
 
-body commands: set.b.k.v.ttl  incr.b.k  get.b.k  del.b.k  adv.dt  raise      (`-` = no ttl / no deadline)
+body commands: set.b.k.v.ttl  incr.b.k  get.b.k  del.b.k  adv.dt  raise  setmany.b.ttl.k:v+k:v+...  delmany.b.k+k+...
+(`-` = no ttl / no deadline).  `flocks`: lock keys held by a foreign owner for ever.  `hlocks`: lock keys held by
+contending holders (other open transactions) when the block starts; `rel=i.b.lk`: the holder of (b, lk) releases it
+just before backend command `i`; every holder has finished by the time the remaining locks are reported.
 
 Answer (one line):
   exc=<none|fault:i|locked|body> ctx=<none|some> (`~` = empty list) trace=<ev;...> outs=<r,...> locks=<b.lk.m|f.dl,...> data=<b.k=v,...> probe=<ok|lost>
@@ -33,11 +37,23 @@ def parseBody? (s : String) : Option BodyCmd :=
   | ["del", b, k] => do pure (.delete (← b.toNat?) (← k.toNat?))
   | ["adv", dt] => do pure (.adv (← dt.toNat?))
   | ["raise"] => some .raise
+  | ["setmany", b, ttl, kvs] => do
+    let kvs ← allSome ((kvs.splitOn "+").map fun kv =>
+      match kv.splitOn ":" with
+      | [k, v] => do pure (← k.toNat?, ← v.toInt?)
+      | _ => none)
+    pure (.setMany (← b.toNat?) kvs (← parseOptNat? ttl))
+  | ["delmany", b, ks] => do pure (.delMany (← b.toNat?) (← allSome ((ks.splitOn "+").map String.toNat?)))
   | _ => none
 
 def parsePair? (s : String) : Option (Nat × Nat) :=
   match s.splitOn "." with
   | [a, b] => do pure (← a.toNat?, ← b.toNat?)
+  | _ => none
+
+def parseRel? (s : String) : Option (Nat × Nat × Nat) :=
+  match s.splitOn "." with
+  | [i, b, lk] => do pure (← i.toNat?, ← b.toNat?, ← lk.toNat?)
   | _ => none
 
 def parseData? (s : String) : Option ((Nat × Nat) × DEntry) :=
@@ -96,9 +112,15 @@ def runLine (ws : List String) : Option String := do
   let flocks ← allSome ((splitList (← field? ws "flocks") ",").map parsePair?)
   let body ← allSome ((splitList (← field? ws "body") ";").map parseBody?)
   let probe ← parseProbe? (← field? ws "probe")
-  let cfg : Cfg := ⟨mode, timeout, attempts, uprio, fun i => faults.contains i⟩
-  let w0 : FWorld := { FWorld.init with data := data, locks := flocks.map fun p => (p, ⟨false, none⟩) }
+  let step ← (← field? ws "step").toNat?
+  let hlocks ← allSome ((splitList (← field? ws "hlocks") ",").map parsePair?)
+  let rel ← allSome ((splitList (← field? ws "rel") ",").map parseRel?)
+  let cfg : Cfg := ⟨mode, timeout, attempts, uprio, fun i => faults.contains i, step,
+    fun i => (rel.filter fun r => r.1 = i).map fun r => r.2⟩
+  let w0 : FWorld := { FWorld.init with data := data, locks := (flocks ++ hlocks).map fun p => (p, ⟨false, none⟩) }
   let (r, w1) := runBlock cfg body w0
+  -- every holder has finished (released its lock) before the observer looks at the lock keys
+  let w1 := { w1 with locks := envRel hlocks w1.locks }
   let exc := match r with
     | .ok _ => "none"
     | .err e => showErr e
